@@ -368,7 +368,7 @@ def r_ctor(chk, prog, m):
     chk.touched(f)
     w = Walker(prog, f, view="unsigned")
     ln = f.params[1][1]
-    res = {"n": 0, "bad": []}
+    res = {"n": 0, "bad": [], "und": []}
     HDR = 48    # offsetof(struct json_object_string, c_string) on LP64, checked against the struct layout below
     fields = m.structs.get("%struct.json_object_string")
     base = m.structs.get("%struct.json_object")
@@ -380,14 +380,19 @@ def r_ctor(chk, prog, m):
             sz = w.val(st, i.ops[1])
             l = w.atom_for(st, ln, "i64")
             res["n"] += 1
-            if not (isinstance(sz, Lin) and w.entails(st, l + const(HDR + 1) - sz) and w.entails(st, const(HDR + 8) - sz)):
+            if not isinstance(sz, Lin) or any("#" in a for a in sz.atoms()):
+                # the size went through memory or a call the model does not follow (an out-parameter of a helper)
+                res["und"].append((i, "the allocation size is not a tracked value (%r)" % (sz,)))
+            elif not (w.entails(st, l + const(HDR + 1) - sz) and w.entails(st, const(HDR + 8) - sz)):
                 res["bad"].append((i, "allocation size %r is not shown >= header + len + 1 and >= header + pointer size (guards %s)" % (sz, st.prov)))
             st.objsize = sz
         if i.op == "call" and i.callee and i.callee.startswith("llvm.memcpy"):
             n = w.val(st, i.ops[2])
             l = w.atom_for(st, ln, "i64")
             res["n"] += 1
-            if not (isinstance(n, Lin) and w.entails(st, n - l) and w.entails(st, l - n)):
+            if not isinstance(n, Lin) or any("#" in a for a in n.atoms()):
+                res["und"].append((i, "the number of bytes copied is not a tracked value (%r)" % (n,)))
+            elif not (w.entails(st, n - l) and w.entails(st, l - n)):
                 res["bad"].append((i, "copies %r bytes, not len" % (n,)))
     w.on_instr = on_instr
 
@@ -399,10 +404,17 @@ def r_ctor(chk, prog, m):
     term = [i for i in f.instrs() if i.op == "store" and i.ops[0].kind == "int" and i.ops[0].v == 0 and "c_string" in P.path(i.ops[1]) and ln in P.path(i.ops[1])]
     res["n"] += 1
     if not term:
-        res["bad"].append((f.entry.term, "no terminator stored at idata[len]"))
+        zero_stores = [i for i in f.instrs() if i.op == "store" and i.ops[0].kind == "int" and i.ops[0].v == 0 and (i.ops[0].type or "") == "i8"]
+        if zero_stores:
+            res["und"].append((zero_stores[0], "a zero byte is stored, but its address is not recognised as idata[len]"))
+        else:
+            res["bad"].append((f.entry.term, "no terminator is stored at all: the constructor writes no zero byte"))
     if res["bad"]:
         i, msg = res["bad"][0]
         chk.refuted(rid, f.name, "constructor", i.locstr(), msg)
+    elif res["und"]:
+        i, msg = res["und"][0]
+        chk.undecided(rid, f.name, "constructor", i.locstr(), msg)
     else:
         chk.proven(rid, f.name, "constructor", f.entry.term.locstr(), "%d obligations on %d paths" % (res["n"], w.paths))
 
